@@ -17,6 +17,12 @@ extern "C" void __sanitizer_set_death_callback(void (*cb)(void));
 extern "C" __attribute__((used, visibility("default"))) const char *__asan_default_options() { return "exitcode=77:detect_leaks=0:detect_odr_violation=0"; }
 #endif
 
+// ThreadSanitizer report hook (tsan flavour): reports are counted per run; their text goes to stderr
+u64 g_tsan_reports = 0;
+#ifdef VERIF_TSAN
+extern "C" __attribute__((visibility("default"))) void __tsan_on_report(void *) { g_tsan_reports++; }
+#endif
+
 static void died_note() {
     char b[256];
     Cur &c = cur();
@@ -95,6 +101,7 @@ int main(int argc, char **argv) {
             line.set("hash", r["hash"]).set("ph", hex64(fnv1a_str(pd))).set("nt", nt ? 1 : 0);
             if (r["viol"].size()) line.set("viol", r["viol"]);
             if (r.has("sh")) line.set("sh", r["sh"]).set("sw", r["switches"]);
+            if (r["tsan"].num() > 0) line.set("tsan", r["tsan"]);
             if ((int) i < nsamples) line.set("sample", plan);
             printf("END %llu %s\n", (unsigned long long) idx, line.dump().c_str());
             fflush(stdout);
